@@ -60,7 +60,7 @@ impl Engine for NatEngine {
         if idx % 10 == 9 {
             return vec![format!("nat register {}", rng.pick(&["__x", "__sort", "_ok", "fine", "__"]))];
         }
-        let (name, n): (&str, usize) = *rng.pick(&[("log", 1), ("sum2", 2), ("three", 3), ("four", 4), ("strlen", 1), ("fail", 0), ("mktable", 1), ("callback", 2)]);
+        let (name, n): (&str, usize) = *rng.pick(&[("log", 1), ("sum2", 2), ("three", 3), ("four", 4), ("strlen", 1), ("fail", 0), ("mktable", 1), ("callback", 2), ("callback", 2), ("papply", 1)]);
         let mut cards_args = vec![];
         let mut toks = vec![];
         for _ in 0..n {
@@ -71,13 +71,31 @@ impl Engine for NatEngine {
         let mut extra = vec![];
         if name == "callback" {
             // callback(f, x): f is a script function / closure / native value
-            let (f, ftok): (Card, String) = match rng.below(3) {
+            let (f, ftok): (Card, String) = match rng.below(6) {
+                // host functions that fail, called by a host function: both names must be reported
+                3 => (c(CardBody::NativeFunction("fail".into())), "nativefail".into()),
+                4 => (c(CardBody::NativeFunction("strlen".into())), "nativestrlen".into()),
+                5 => (c(CardBody::Closure(Box::new(Function { arguments: vec!["p".into()], cards: vec![Card::return_card(Card::call_native("strlen", vec![c(CardBody::ScalarInt(3))]))] }))), "closurefails".into()),
                 0 => {
                     extra.push(("echo".to_string(), Function { arguments: vec!["p".into()], cards: vec![Card::return_card(Card::read_var("p"))] }));
                     (c(CardBody::Function("echo".into())), "echo".into())
                 }
                 1 => (c(CardBody::Closure(Box::new(Function { arguments: vec!["p".into()], cards: vec![Card::set_global_var("seen", Card::read_var("p")), Card::return_card(c(CardBody::ScalarInt(77)))] }))), "closure77".into()),
                 _ => (c(CardBody::NativeFunction("log".into())), "nativelog".into()),
+            };
+            cards_args[0] = f;
+            toks[0] = ftok;
+        }
+        if name == "papply" {
+            // papply(f): f takes no parameters; at the first card of main nothing else is on the stack
+            let (f, ftok): (Card, String) = match rng.below(4) {
+                0 => {
+                    extra.push(("zero".to_string(), Function { arguments: vec![], cards: vec![Card::return_card(c(CardBody::ScalarInt(5)))] }));
+                    (c(CardBody::Function("zero".into())), "zero".into())
+                }
+                1 => (c(CardBody::Closure(Box::new(Function { arguments: vec![], cards: vec![Card::set_global_var("seen", c(CardBody::ScalarInt(1))), Card::return_card(c(CardBody::ScalarInt(78)))] }))), "closure78".into()),
+                2 => (c(CardBody::NativeFunction("fail".into())), "nativefail".into()),
+                _ => (c(CardBody::ScalarInt(3)), "notafunction".into()),
             };
             cards_args[0] = f;
             toks[0] = ftok;
@@ -194,7 +212,23 @@ impl Engine for NatEngine {
                 "callback" => match args[0] {
                     "echo" => r.starts_with("ok") && log == format!("callback -> {}", args[1]),
                     "closure77" => r.starts_with("ok") && log == "callback -> i77" && (args[1] == "n" || r.contains(&format!("seen={}", args[1]))),
+                    // an error returned by the inner host function carries both names, outermost first
+                    "nativefail" => r.starts_with("err:TaskFailure(callback):TaskFailure(fail):InvalidArgument") && !after_set,
+                    "nativestrlen" => {
+                        if args[1].starts_with('s') {
+                            r.starts_with("ok") && log == format!("callback -> i{}", (args[1].len() - 1) / 2)
+                        } else {
+                            r.starts_with("err:TaskFailure(callback):TaskFailure(strlen):InvalidArgument") && !after_set
+                        }
+                    }
+                    "closurefails" => r.starts_with("err:TaskFailure(callback):TaskFailure(strlen):InvalidArgument") && !after_set,
                     _ => r.starts_with("ok") && log == format!("log {}|callback -> n", args[1]),
+                },
+                "papply" => match args[0] {
+                    "zero" => r.starts_with("ok") && log == "papply -> i5" && result == "i5",
+                    "closure78" => r.starts_with("ok") && log == "papply -> i78" && result == "i78" && r.contains("seen=i1"),
+                    "nativefail" => r.starts_with("err:TaskFailure(papply):TaskFailure(fail):InvalidArgument") && !after_set,
+                    _ => r.starts_with("err:TaskFailure(papply):InvalidArgument") && !after_set,
                 },
                 _ => false,
             };
